@@ -65,6 +65,16 @@ CHECKS = {
             "Proposer-like and follower-like instances get finalize calls at different times, mempool traffic, repeated InitChain and reopen; a reference instance only executes. Per block all three state roots must be equal; malformed blocks must fail and change nothing; re-execution and repeated initialization must be idempotent. Sampling, not proof.",
             "Executor database is the simulated disk via a hook constructor.",
             "DESIGN.md §5 C15", "stepsim"),
+    "C16": ("exploration",
+            "differential simulation: identical simulated DA layers driven call by call directly and through the real JSON-RPC server+client over loopback, with every DA error injected at the backing store; seeded call sequences through the node's helpers",
+            "Seeded sequences of submissions (blob sizes around the limit, empty, many), retrievals (empty, future, failing, chunked >100 blobs), all submit errors of the DA interface, partial acceptance and pre-cancelled contexts; status code, submitted count, ids, blobs and backing-store contents must be equal call by call. Sampling, not proof.",
+            "The JSON-RPC transport is a real loopback socket (no seam); the two backing stores are separate but identical.",
+            "DESIGN.md §5 C16", "stepsim"),
+    "C17": ("exploration",
+            "deterministic simulation: the real aggregation loop under the synctest fake clock with a recording publishBlock of seeded simulated duration and notifications at seeded instants; exact oracle on recorded start/end times",
+            "Block interval 10 ms-10 s, idle/block ratio 0.2-100, production durations 0-3x block interval, notifications incl. inside productions, lazy and normal mode, 20-500 block intervals per run. Every notification must be followed by a production start within one block interval (counted from the end of a production in flight), gaps between starts never below the block interval and never above idle(+duration)+block interval; normal mode one block per interval regardless of notifications. Sampling, not proof.",
+            "publishBlock replaced via hook; same-instant timer ties are resolved by the Go runtime's select (oracle holds for every choice; replay retries).",
+            "DESIGN.md §5 C17", "stepsim"),
     "C20": ("exploration",
             "deterministic simulation: real based sequencer over simulated disk and DA; harness plays the block manager with seeded size limits, DA growth, retrieval errors and restarts; DA-order prefix oracle and bounded liveness",
             "Seeded DA contents (0-6 tx blobs per height, sizes 1-200 B), heights appearing over time, GetNextBatch with limits from 4 B to default, scripted retrieval failures, restarts with/without the caller's cursor, drift 1-4. Released transactions must form a gap-free, repeat-free prefix of the DA order, no batch may exceed its limit, and with a healthy DA everything must be released within a call budget. Sampling, not proof.",
